@@ -340,11 +340,15 @@ class Base(StateMachine):
     s1 = State()
     s2 = State()
     go = s0.to(s1) | s1.to(s2) | s2.to(s0)
+    may_jump = False        # (only the subclass has a transition guarded by it)
 """
 EXT_SUB = """
 class Sub(Base):
     s3 = State()
-    jump = Base.s1.to(s3) | s3.to(Base.s0)
+    jump = Base.s1.to(s3, cond="may_jump") | s3.to(Base.s0)
+    may_jump = False
+    def on_jump(self):
+        REC.append(("on_jump",))
 """
 
 
@@ -408,10 +412,23 @@ def check_extension(res):
         # the subclass itself must work
         sub = ns["Sub"]()
         sub.send("go")
-        sub.send("jump")
-        if sub.current_state.id != "s3":
+        del ns["REC"][:]
+        try:
+            sub.send("jump")
+            refused = False
+        except sub.TransitionNotAllowed:
+            refused = True
+        if not refused or sub.current_state.id != "s1":
             res.violation({"category": "subclass-extension-broken"}, {"extension": when},
-                          f"Sub did not reach s3: {sub.current_state.id}")
+                          f"[{when}] the guard of the transition added by the subclass "
+                          f"(may_jump = False) was not consulted: Sub is in "
+                          f"{sub.current_state.id}")
+        sub.may_jump = True
+        sub.send("jump")
+        if sub.current_state.id != "s3" or ns["REC"] != [("on_jump",)]:
+            res.violation({"category": "subclass-extension-broken"}, {"extension": when},
+                          f"[{when}] Sub did not reach s3 running on_jump once: "
+                          f"{sub.current_state.id}, callbacks {ns['REC']}")
 
 
 def worker(block):
